@@ -82,6 +82,74 @@ def _rows(a):
     return [d[r * a.shape[1]:(r + 1) * a.shape[1]] for r in range(a.shape[0])], ex
 
 
+def _exact_options(c, A, B, w):
+    """Options and argument forms on the integer patterns: correlation_index(tol=...) with float32 / float64 factor sets,
+    and mixed dtypes between the two arguments (integer first set + halved, i.e. half-integer, float second set;
+    float32 + float64) for congruence_coefficient, correlation_index and cp_permute_factors."""
+    import tensorly as tl
+    from tensorly.metrics.factors import congruence_coefficient
+    from tensorly.metrics.similarity import correlation_index
+    from tensorly.cp_tensor import CPTensor, cp_permute_factors
+    R = c["R"]
+    Ai = [a.astype(np.int64) for a in A]
+    Bh = [b * 0.5 for b in B]
+    out = {"corr": [], "cong": [], "permute": []}
+    combos = [(t, dt, False) for t in (1, 2) for dt in ("f32", "f64")] + [(0, "f32", False), (0, "i64/f64h", False), (0, "i64/f64h", True)]
+    tolv = {1: 1e-5, 2: 1e-3}
+    for t, dt, swap in combos:
+        if dt == "i64/f64h":
+            P, Q = Ai, Bh
+        else:
+            tp = np.float32 if dt == "f32" else np.float64
+            P, Q = [a.astype(tp) for a in A], [b.astype(tp) for b in B]
+        if swap:
+            P, Q = Q, P
+        for m in METHODS:
+            rec = {"tol": t, "dt": dt, "swap": swap, "method": m, "raised": False, "val": 0, "zero": False}
+            try:
+                kw = {"tol": tolv[t]} if t else {}
+                sc = correlation_index([tl.tensor(x.copy()) for x in P], [tl.tensor(x.copy()) for x in Q], method=m, **kw)
+                rec.update(val=qi(sc, S6), zero=bool(sc == 0))
+            except Exception as ex:
+                rec.update(raised=True, exc=type(ex).__name__)
+            out["corr"].append(rec)
+    for mix in ("i64/f64h", "f32/f64"):
+        P0, Q0 = (Ai, Bh) if mix == "i64/f64h" else ([a.astype(np.float32) for a in A], B)
+        for swap in (False, True):
+            P, Q = (Q0, P0) if swap else (P0, Q0)
+            rec = {"mix": mix, "abs": True, "form": "list", "swap": swap, "raised": False, "val": QNAN, "perm": []}
+            try:
+                val, perm = congruence_coefficient([tl.tensor(x.copy()) for x in P], [tl.tensor(x.copy()) for x in Q])
+                rec.update(val=qi(val, S6), perm=[int(x) for x in perm])
+            except Exception as ex:
+                rec.update(raised=True, exc=type(ex).__name__)
+            out["cong"].append(rec)
+    srcs = {"A": (np.ones(R), Ai), "B": (np.asarray(w, dtype=float), Bh)}
+    for ref, target in (("A", "B"), ("B", "A")):
+        rec = {"form": "single", "ref": ref, "target": target, "raised": False, "perm": [], "exact": True, "factors": [], "weights": [],
+               "eqf": False, "eqw": False}
+        try:
+            mk = lambda wt, fs: CPTensor((tl.tensor(np.array(wt, dtype=float)), [tl.tensor(f.copy()) for f in fs]))
+            t, perms = cp_permute_factors(mk(*srcs[ref]), mk(*srcs[target]))
+            perm = [int(x) for x in np.asarray(perms[0]).ravel()]
+            sw, sf = srcs[target]
+            ok = len(perm) == R and all(0 <= x < R for x in perm)
+            rec.update(perm=perm, eqf=bool(ok and all(np.array_equal(np.asarray(f), b[:, perm]) for f, b in zip(t.factors, sf))),
+                       eqw=bool(ok and np.array_equal(np.asarray(t.weights), sw[perm])))
+            if target == "A":
+                facs, exact = [], True
+                for f in t.factors:
+                    rows, ex = _rows(f)
+                    facs.append(rows)
+                    exact = exact and ex
+                wd, ex = ints(t.weights)
+                rec.update(factors=facs, weights=wd, exact=bool(exact and ex))
+        except Exception as ex:
+            rec.update(raised=True, exc=type(ex).__name__)
+        out["permute"].append(rec)
+    return out
+
+
 def exec_exact(case):
     from tensorly.cp_tensor import cp_permute_factors
     c = case["cfg"]
@@ -103,7 +171,7 @@ def exec_exact(case):
                 z = z / np.abs(z)
             Ac.append(ph * A[m])
             Bc.append(ph * Bint[m] * z[None, :])
-        return {"id": case["id"], "kind": "exact", "cfg": c, "cong": [], "permute": [],
+        return {"id": case["id"], "kind": "exact", "cfg": c, "cong": [], "permute": [], "opts": {"cong": [], "corr": [], "permute": []},
                 "corr": _corr_records(Ac, Bc), "corr_swap": _corr_records(Bc, Ac)}
     w = np.array(c["w"], dtype=float)
     if magnified:                                                       # the tensor keeps its size in the weights
@@ -111,6 +179,7 @@ def exec_exact(case):
             w = w / g
     ev = {"id": case["id"], "kind": "exact", "cfg": c, "cong": _cong_records(A, B, M, swaps=(False, True)),
           "corr": _corr_records(A, B), "corr_swap": _corr_records(B, A)}
+    ev["opts"] = _exact_options(c, A, Bint, w) if c["s"] <= 3 else {"cong": [], "corr": [], "permute": []}
     permute = []
     srcs = {"A": (np.ones(R), A), "B": (w, B)}
 
@@ -291,14 +360,16 @@ def exec_metric(case):
     from tensorly.metrics import regression as reg
     c = case["cfg"]
     shape = tuple(c["shape"])
-    rng = _rng(case["seed"], 21, sorted(OPFN).index(c["op"]), c["axis"] + 5, c["k"], *shape)
+    rng = _rng(case["seed"], 21, sorted(OPFN).index(c["op"]), c["axis"] + 5, c["k"], c["off"], *shape)
     n = int(np.prod(shape))
     x = rng.integers(-3, 4, size=n)
     y = rng.integers(-3, 4, size=n)
     if c["k"] % 2 == 0:          # every other draw: prediction close to the truth
         y = np.clip(x + rng.integers(-1, 2, size=n), -3, 3)
-    X = tl.tensor(x.reshape(shape).astype(float))
-    Y = tl.tensor(y.reshape(shape).astype(float))
+    off = 0.0 if c["off"] == 0 else 2.0 ** c["off"]      # offset regime: exactly representable integers
+    dt = np.float32 if c["dt"] == "f32" else np.float64
+    X = tl.tensor((x.reshape(shape) + off).astype(dt))
+    Y = tl.tensor((y.reshape(shape) + off).astype(dt))
     axis = None if c["axis"] == 99 else c["axis"]
     fn = getattr(reg, OPFN[c["op"]])
     try:
